@@ -37,9 +37,9 @@ type c04Val struct {
 }
 
 type c04Stim struct {
-	ID    int        `json:"id"`
-	LL    c04Shape   `json:"ll"`
-	Prev  *c04Shape  `json:"prev"`
+	ID    int       `json:"id"`
+	LL    c04Shape  `json:"ll"`
+	Prev  *c04Shape `json:"prev"`
 	Calls []struct {
 		Args []c04Val `json:"args"`
 	} `json:"calls"`
